@@ -266,6 +266,12 @@ CORPUS = [
 ]
 
 
+def extract(run):
+    from harness import extract as X
+
+    return X.generate("C19")
+
+
 def explore(run, driver, budget):
     run.info["rule"] = RULE
     n = {"quick": 500, "thorough": 30000, "search": 6000}[budget]
